@@ -243,7 +243,7 @@ def run_command(dirpath, parallel_pool=None):
 
     fs = simenv.SimFS(pool_plan=parallel_pool)
     S = sim.Sim()
-    S.max_planes = 60000
+    S.max_planes = 4000
     out = io.StringIO()
     outcome = 'ok'
     detail = ''
